@@ -487,6 +487,7 @@ Proof.
   destruct (find_cdp e s o t) as [c0|] eqn:Ef; [|discriminate].
   destruct (get_cp e t) as [cp|] eqn:Hcp; [|discriminate].
   destruct (find_cdp_stored' _ _ _ _ _ _ HI Ef Hcp) as [Ht Hst].
+  destruct (mstat s (cp_spot cp) && mstat s (cp_liqm cp)) eqn:Em; [|discriminate]. cbn [negb].
   destruct (Nat.eqb pd (d_usdx e)); [|discriminate]. cbn [negb].
   destruct (debt_limit_ok e s t cp x); [|discriminate]. cbn [negb].
   destruct (sync_interest e s cp c0) as [s1 c| |] eqn:Es; try discriminate.
@@ -862,9 +863,9 @@ Qed.
 (** * The begin blocker *)
 Definition Inv2 (e : env) (s : state) : Prop := IdxInv e s /\ CustInv e s.
 
-Lemma seize_fold_Inv2 e cp t : forall l s s' u,
+Lemma seize_fold_Inv2 e cp t p : forall l s s' u,
   env_wf e -> get_cp e t = Some cp ->
-  ofold (fun s1 (o : option cdp) => match o with Some c => seize e s1 cp c | None => Panic end) s l = Ok s' u ->
+  ofold (liq_step e cp p) s l = Ok s' u ->
   Inv2 e s ->
   (forall c, In (Some c) l -> c_type c = t /\ cdps s t (c_id c) = Some c) ->
   NoDup (map (fun o : option cdp => match o with Some c => c_id c | None => O end) l) ->
@@ -872,7 +873,10 @@ Lemma seize_fold_Inv2 e cp t : forall l s s' u,
 Proof.
   induction l as [|o tl IH]; intros s s' u Hwf Hcp H HI Hst Hnd; cbn [ofold] in H.
   - inversion H; subst. exact HI.
-  - destruct o as [c|]; [|discriminate].
+  - destruct o as [c|]; [|discriminate]. unfold liq_step in H at 1.
+    cbn [map] in Hnd. apply NoDup_cons_iff in Hnd. destruct Hnd as [Hni Hnt].
+    destruct (confirm_below e cp p c);
+      [|cbv beta iota in H; eapply IH; [exact Hwf|exact Hcp|exact H|exact HI|intros c' Hin; apply Hst; right; exact Hin|exact Hnt]].
     destruct (seize e s cp c) as [s1 []| |] eqn:E; try discriminate.
     destruct (Hst c (or_introl eq_refl)) as [Hty Hc].
     pose proof (seize_stores _ _ _ _ _ _ E) as (A & _).
@@ -881,7 +885,6 @@ Proof.
     { split.
       - eapply seize_IdxInv; [exact HI| | |exact E]; rewrite Hty; assumption.
       - eapply seize_CustInv; [exact Hwf|exact HC| | |exact E]; rewrite Hty; assumption. }
-    cbn [map] in Hnd. apply NoDup_cons_iff in Hnd. destruct Hnd as [Hni Hnt].
     eapply IH; [exact Hwf|exact Hcp|exact H|exact I1| |exact Hnt].
     intros c' Hin. destruct (Hst c' (or_intror Hin)) as [Hty' Hc']. split; [exact Hty'|].
     rewrite A. unfold upd2. rewrite Hty, Nat.eqb_refl. cbn [andb].
@@ -897,7 +900,7 @@ Proof.
   set (ents := idx_below _ _ _).
   destruct (existsb _ _) eqn:Ex; [discriminate|].
   intros H. pose proof HI2 as [(Hk & Hr & Hi) HC]. destruct (Hr t cp Hcp) as [Hnd Hin].
-  eapply (seize_fold_Inv2 e cp t); [exact Hwf|exact Hcp|exact H|exact HI2| |].
+  eapply (seize_fold_Inv2 e cp t (price s (cp_liqm cp))); [exact Hwf|exact Hcp|exact H|exact HI2| |].
   - intros c Hc. apply in_map_iff in Hc. destruct Hc as (x & Hx & _).
     unfold get_cdp in Hx. rewrite Hcp in Hx. destruct (Hk _ _ _ Hx) as [Hty Hid]. split; [exact Hty|].
     rewrite Hid. exact Hx.
